@@ -113,6 +113,65 @@ def run(ctx):
             calls = [{"d": d, "delta": hexf(delta)}, {"d": d, "gamma": hexf(other)}, {"d": d, "gamma": hexf(gamma)},
                      {"d": d, "delta": hexf(delta), "return_alpha": True}, {"d": d, "delta": hexf(delta)}]
             cases.append({"fn": "fpsearch", "calls": calls, "d": d, "delta": delta, "timeout": 300})
+    # gamma given directly, also where the corresponding delta = 1/T_L(1/gamma) is far below the smallest double (long sequences, small gamma)
+    gcases = []
+    if ctx.replay is None or ctx.replay.get("case", {}).get("fn") == "fpsearch_gamma":
+        glist = [(200, 0.3), (120, 0.1), (50, 0.6), (5, 0.9), (150, 0.15)] if quick else \
+            [(d_, g_) for d_ in (1, 5, 20, 50, 100, 120, 150, 200) for g_ in (0.9, 0.6, 0.3, 0.1, 0.03)]
+        gcases = [{"fn": "fpsearch", "calls": [{"d": d_, "gamma": hexf(g_)}, {"d": max(1, d_ - 1), "gamma": hexf(0.5)}, {"d": d_, "gamma": hexf(g_)}],
+                   "d": d_, "gamma": g_, "timeout": 300} for d_, g_ in glist]
+        if ctx.replay is not None:
+            gcases = [dict(ctx.replay["case"], fn="fpsearch")]
+            cases = []
+    gimpl = run_impl(gcases, timeout=3000) if gcases else []
+    glines, gkeep = [], []
+    for c, r in zip(gcases, gimpl):
+        d, gam = c["d"], c["gamma"]
+        c = dict(c, fn="fpsearch_gamma")
+        ctx.count(c, nontrivial=d >= 2, bucket="gamma-only/d<%d/gamma=%g" % (10 ** len(str(d)), gam))
+        if "exc" in r:
+            ctx.fail("fpsearch", c, "raised %s: %s" % (r["exc"], r.get("msg", "")[:100]))
+            continue
+        res = r["ok"]
+        if res["changed_later"]:
+            ctx.fail("fpsearch", c, "phase vectors returned by calls %s were modified by later generate() calls (shared storage)" % res["changed_later"])
+            continue
+        ph = res["out"][0]
+        if len(ph) != 2 * d or any(("nan" in x or "inf" in x) for x in ph) or ph != ph[::-1] or res["out"][2] != ph:
+            ctx.fail("fpsearch", c, "gamma path: %d phases for d = %d, non-finite, not palindromic, or not reproducible" % (len(ph), d))
+            continue
+        L = 2 * d + 1
+        y = 1.0 / gam
+        u = math.acosh(y)
+        width = math.sqrt(max(0.0, 1 - gam * gam))
+
+        def pg(a):
+            x = y * math.sqrt(max(0.0, 1 - a * a))
+            if x <= 1:
+                r_ = math.cos(L * math.acos(x)) / math.cosh(L * u) if L * u < 700 else 0.0
+            else:
+                v = math.acosh(x)
+                r_ = math.exp(L * (v - u)) * (1 + math.exp(-2 * L * v)) / (1 + math.exp(-2 * L * u))
+            return 1 - r_ * r_
+        avals = sorted(set([0.0, 1.0, width, width * 0.999, 0.5] + [width * rng.random() for _ in range(8)] + [rng.uniform(0, min(1.0, 4.0 / L)) for _ in range(8)]))
+        pts = [(a, pg(a)) for a in avals]
+        glines.append("(fpprob %s (%s))" % (Q.qlist(ph), " ".join("(%s %s)" % (qs(fr(a)), qs(fr(p_))) for a, p_ in pts)))
+        gkeep.append((c, pts))
+    for (c, pts), m in zip(gkeep, run_model(glines, timeout=3000) if glines else []):
+        if isinstance(m, str):
+            ctx.infra_fail("extracted model failed (gamma path): " + m)
+            continue
+        for (a, p_), dist in zip(pts, m):
+            if dist == "ERR":
+                ctx.infra_fail("no enclosure at a = %r" % a)
+                break
+            if Q.scaled_to_float(dist) > 1e-9:
+                ctx.fail("fpsearch", c, "gamma = %g, d = %d: success probability at overlap lambda=%.9f is at distance %.3e from 1 - T_L(sqrt(1-lambda)/gamma)^2 / T_L(1/gamma)^2 = %.12f"
+                         % (c["gamma"], c["d"], a * a, Q.scaled_to_float(dist), p_))
+                break
+        else:
+            ctx.instance_obligations += 1
+            ctx.instance_discharged += 1
     impl = run_impl(cases, timeout=3000)
     lines, keep = [], []
     for c, r in zip(cases, impl):
